@@ -1,6 +1,7 @@
 (* C17 — SparseKDE is a well-formed mixture consistent with its Voronoi assignment.
-   Statements only; every proof is `exact <lemma>` from Proofs/SparseKDEP.v (layer D, exact,
-   Model/SparseKDE.v).
+   Statements only; every proof is `exact <lemma>`: first the exact layer D (Model/SparseKDE.v,
+   Proofs/SparseKDEP.v, stdlib), then the numerical part (Model/SparseKDEA.v, Proofs/SparseKDEAP.v,
+   mathcomp) in the second half of this file.
 
    [predict cell G D sw] is _NearestGridAssigner.predict on grid G, descriptors D, sample
    weights sw under the metric periodic_pairwise_euclidean_distances(squared=True,
@@ -105,3 +106,137 @@ Proof.
   cbv zeta. split; [repeat constructor|]. split; [repeat constructor|]. split; [repeat constructor|].
   eexists. split; [vm_compute; reflexivity|]. repeat split; vm_compute; reflexivity.
 Qed.
+
+(* ================================================================================================ *)
+(* The numerical part (Model/SparseKDEA.v, proofs in Proofs/SparseKDEAP.v).  The routines are         *)
+(* written once over a record of scalar operations; [rops fexp flog frnd] interprets them over an     *)
+(* arbitrary real closed field F with UNINTERPRETED exp, log and np.round, [fops] over binary64      *)
+(* (what the correspondence check runs).  -inf is None.                                               *)
+(* ================================================================================================ *)
+Close Scope Z_scope.
+From mathcomp Require Import all_ssreflect all_algebra.
+From Coq Require Import PrimFloat.
+From Verif Require Import MExp MExpMx SparseKDEA SparseKDEAP.
+Import GRing.Theory Num.Theory.
+Local Open Scope ring_scope.
+
+(* score_samples(x) is the logarithm of the documented mixture
+     mixture x = ( sum_j  [far x j]  W_j * gauss_j(x - g_j)
+                        + [near x j] sum_{i in cell j, D_i <> x} w_i * gauss_j(D_i - x) ) / sum_j W_j
+   (far = squared Mahalanobis distance of x to grid point j under bandwidth j beyond the cut-off
+   (3(sqrt(dim)+1))^2; gauss_j(v) = exp(-(normkernel_j + v^T Hinv_j v)/2), v a minimum image when
+   there is a cell), and -inf when the mixture vanishes.  exp and log enter only through the four
+   laws assumed here (they hold for the real functions; no instance is constructed in Coq). *)
+Theorem C17_mixture_formula :
+  forall (F : rcfType) (fexp flog frnd : F -> F),
+    (forall a b : F, fexp (a + b) = fexp a * fexp b) ->
+    (forall a : F, 0 < fexp a) ->
+    (forall a : F, 0 < a -> fexp (flog a) = a) ->
+    (forall a : F, flog (fexp a) = a) ->
+    forall (cell : option (seq F)) (G D : seq (seq F)) (w W : seq F) (mem : seq (seq nat))
+           (Hinv : seq (seq (seq F))) (nk : seq F) (dim : BinNums.Z),
+    (forall i : nat, 0 <= List.nth i w 0) ->
+    (forall j : nat, 0 <= List.nth j W 0) ->
+    forall x : seq F,
+    0 < \sum_(v <- W) v ->
+    score_point (rops fexp flog frnd) cell G D w W mem Hinv nk dim x =
+    (if mixture fexp flog frnd cell G D w W mem Hinv nk dim x == 0 then None
+     else Some (flog (mixture fexp flog frnd cell G D w W mem Hinv nk dim x))).
+Proof. exact mixture_formula. Qed.
+Print Assumptions C17_mixture_formula.
+
+(* score is the sum of score_samples (-inf as soon as one of them is -inf) *)
+Theorem C17_score_is_sum :
+  forall (F : rcfType) (fexp flog frnd : F -> F) (cell : option (seq F)) (G D : seq (seq F))
+         (w W : seq F) (mem : seq (seq nat)) (Hinv : seq (seq (seq F))) (nk : seq F)
+         (dim : BinNums.Z) (Q : seq (seq F)),
+    let l := score_samples (rops fexp flog frnd) cell G D w W mem Hinv nk dim Q in
+    score (rops fexp flog frnd) cell G D w W mem Hinv nk dim Q =
+    (if List.forallb (fun o : option F => match o with Some _ => true | None => false end) l
+     then Some (\sum_(v <- somes l) v) else None).
+Proof. exact score_sum. Qed.
+Print Assumptions C17_score_is_sum.
+
+(* the free-space _covariance (mexp program cov_prog; variables 0 := X, 1 := local weights) is the
+   weighted Gram matrix of the centred positions: symmetric, and positive semi-definite when the
+   normalised weights are non-negative and 1 - sum p^2 > 0 *)
+Theorem C17_covariance_psd :
+  forall (F : rcfType) (n D : nat) (env : env_mx F),
+    (eval_mx env (cov_prog n D))^T = eval_mx env (cov_prog n D) /\
+    ((forall i : 'I_n, 0 <= eval_mx env (cp_p n) i ord0) ->
+     0 < eval_mx env (cp_c n) ord0 ord0 -> psd (eval_mx env (cov_prog n D))).
+Proof. exact covariance_psd. Qed.
+Print Assumptions C17_covariance_psd.
+
+(* "the localisation reaches at least one other grid point": two positive normalised local weights
+   make the denominator 1 - sum p^2 of the covariance positive *)
+Theorem C17_reach_positive :
+  forall (F : rcfType) (n : nat) (p : 'I_n -> F) (i0 j0 : 'I_n),
+    (forall i : 'I_n, 0 <= p i) -> \sum_i p i = 1 -> i0 != j0 -> 0 < p i0 -> 0 < p j0 ->
+    0 < 1 - \sum_i p i * p i.
+Proof. exact reach_pos. Qed.
+Print Assumptions C17_reach_positive.
+
+(* the bandwidth  h = s * ((1 - phi) cov + phi tr(cov)/D I)  produced by the repaired oas
+   (phi = min(1, num/den) if den > 0 else 1; mexp program oas_prog, variables 0 := local covariance,
+   1 := local population, 2 := Silverman factor s): the repaired shrinkage weight satisfies
+   0 < phi <= 1 and h is symmetric positive definite for every local population, provided the local
+   covariance is symmetric positive semi-definite with positive trace and s > 0 (s is an exponential).
+   The effective dimension enters only through s. *)
+Theorem C17_bandwidth_spd :
+  forall (F : rcfType) (D : nat) (env : env_mx F),
+    (2 <= D)%N ->
+    (env D D 0%N)^T = env D D 0%N -> psd (env D D 0%N) -> 0 < \tr (env D D 0%N) ->
+    0 < (env 1%N 1%N 2%N) ord0 ord0 ->
+    0 <= oas_psi D env < 1 /\
+    eval_mx env (oas_prog D) =
+      (env 1%N 1%N 2%N) ord0 ord0 *:
+        (oas_psi D env *: env D D 0%N
+         + ((1 - oas_psi D env) * (\tr (env D D 0%N) / D%:R)) *: 1%:M) /\
+    (eval_mx env (oas_prog D))^T = eval_mx env (oas_prog D) /\ pd (eval_mx env (oas_prog D)).
+Proof. exact bandwidth_spd_full. Qed.
+Print Assumptions C17_bandwidth_spd.
+
+(* one dimension: h = s * cov *)
+Theorem C17_bandwidth_spd_dim1 :
+  forall (F : rcfType) (env : env_mx F),
+    0 < (env 1%N 1%N 0%N) ord0 ord0 -> 0 < (env 1%N 1%N 2%N) ord0 ord0 ->
+    (eval_mx env (oas_prog 1))^T = eval_mx env (oas_prog 1) /\ pd (eval_mx env (oas_prog 1)).
+Proof. exact bandwidth_spd_1. Qed.
+Print Assumptions C17_bandwidth_spd_dim1.
+
+(* free space, from the raw local weights: non-negative weights two of which are positive, the
+   covariance computed by cov_prog having positive trace *)
+Theorem C17_bandwidth_spd_free :
+  forall (F : rcfType) (n D : nat) (envC envO : env_mx F) (i0 j0 : 'I_n),
+    (forall i, 0 <= (envC n 1%N 1%N) i ord0) -> i0 != j0 ->
+    0 < (envC n 1%N 1%N) i0 ord0 -> 0 < (envC n 1%N 1%N) j0 ord0 ->
+    envO D D 0%N = eval_mx envC (cov_prog n D) ->
+    (2 <= D)%N -> 0 < \tr (envO D D 0%N) -> 0 < (envO 1%N 1%N 2%N) ord0 ord0 ->
+    (eval_mx envO (oas_prog D))^T = eval_mx envO (oas_prog D) /\ pd (eval_mx envO (oas_prog D)).
+Proof. exact bandwidth_spd_free. Qed.
+Print Assumptions C17_bandwidth_spd_free.
+
+(* non-vacuity of the bandwidth hypotheses, over every real closed field: identity covariance in
+   two dimensions, s = 1 *)
+Example C17_nonvacuous_bandwidth :
+  forall F : rcfType, exists env : env_mx F,
+    (env 2%N 2%N 0%N)^T = env 2%N 2%N 0%N /\ psd (env 2%N 2%N 0%N) /\ 0 < \tr (env 2%N 2%N 0%N) /\
+    0 < (env 1%N 1%N 2%N) ord0 ord0.
+Proof. exact nonvacuous_bandwidth. Qed.
+
+(* non-vacuity of the mixture model: a run of the very same definition on binary64.  One dimension,
+   unit bandwidths; the query is descriptor 0 (excluded by the descriptor <> query filter), grid
+   point 0 is near (member 1 contributes), grid point 1 is far (d2 = 100 > 36): the value is
+   log(0.25 N(1) + 0.5 N(10)) = -2.80523289432456... *)
+Example C17_nonvacuous_mixture :
+  let nk := 0x1.d67f1c864beb4p+0%float in
+  match score_point fops None [:: [:: 0%float]; [:: 10%float]]
+          [:: [:: 0%float]; [:: 1%float]; [:: 10%float]]
+          [:: 0.25%float; 0.25%float; 0.5%float] [:: 0.5%float; 0.5%float]
+          [:: [:: 0%N; 1%N]; [:: 2%N]] [:: [:: [:: 1%float]]; [:: [:: 1%float]]]
+          [:: nk; nk] (BinNums.Zpos BinNums.xH) [:: 0%float] with
+  | Some v => close1 0x1p-40 0 v (-0x1.6711df1964ca5p+1)%float
+  | None => false
+  end = true.
+Proof. by vm_compute. Qed.
